@@ -228,6 +228,79 @@ class Measure(Harness):
         yield 'measured==bit-length', obs['size'] == self.bits
 
 
+class SendInitOutcomes(Harness):
+    """real GEXTest._send_init with the real KexGroupExchange object, twice on the same object (as GEXTest.run does): first request answered with a
+    well-formed group of b bits and a reply; second request answered by one of: connection dead, silence (timeout), DISCONNECT, a message of another type, a
+    group message cut short.  The first call reports b, the second reports NO size (-1) - never the size left over from the first, never a made-up one."""
+    prop, ob = PROP, 'O4'
+
+    def __init__(self, bits, second):
+        self.bits, self.second = bits, second
+        self.name = 'sendinit-%d-then-%s' % (bits, second)
+        self.width = 64
+
+    def params(self):
+        return {'bits': self.bits, 'second': self.second}
+
+    def inputs(self):
+        # the modulus is concrete here (its measurement for arbitrary contents is O2); symbolic: the type byte of the unexpected message
+        nb = self.bits // 8
+        return {'p': b'\x80' + b'\x00' * (nb - 2) + b'\x01', 't': zx.fresh_bytes('t', 1)}
+
+    def run(self, M, inp):
+        S = AE.sshstr
+        group = (31, S(b'\x00' + inp['p']) + S(b'\x02'))
+        reply = (33, S(b'hostkey') + S(b'\x05') + S(b'sig'))
+        sec = self.second
+        if sec == 'dead':
+            second = []
+        elif sec == 'disconnect':
+            second = [(1, AE.u32(2) + S(b'bye') + S(b''))]
+        elif sec == 'other-type':
+            second = [(inp['t'][0] if isinstance(inp['t'], bytes) else inp['t'][0], b'zz')]
+        elif sec == 'short-group':
+            second = [(31, S(b'\x00' + inp['p'])[:6])]
+        elif sec == 'group-without-reply':
+            second = [group]
+        else:
+            raise ValueError(sec)
+        out = M.outputbuffer.OutputBuffer()
+        k = M.kexdh.KexGroupExchange_SHA256(out)
+        kex = make_kex(M, {'kex': [G256]})
+        class Rnd:
+            class SystemRandom:
+                def randrange(self, a, b=None):
+                    return a
+
+        class Sock(FakeSockRW):
+            def is_connected(self_): return True
+            def close(self_): pass
+        orig = M.gextest.GEXTest.reconnect
+        M.gextest.GEXTest.reconnect = staticmethod(lambda *a, **kw: True)
+        try:
+            with AE.patched(M.kexdh, random=Rnd):
+                r1 = guarded(M.gextest.GEXTest._send_init, out, Sock([group, reply]), k, kex, G256, 2048, 2048, 2048)
+                if sec == 'other-type' and zx.active():
+                    t = inp['t'][0]
+                    zx.cur().assume(s_and(t != 31, t != 4))        # 31 would be a group message, 4 (DEBUG) is skipped by design
+                r2 = guarded(M.gextest.GEXTest._send_init, out, Sock(second), k, kex, G256, 3072, 3072, 3072)
+        finally:
+            M.gextest.GEXTest.reconnect = orig
+        return {'r1': r1, 'r2': r2}
+
+    def check(self, inp, obs):
+        r1, r2 = obs['r1'], obs['r2']
+        yield 'no-exception', not isinstance(r1, Exc) and not isinstance(r2, Exc)
+        if isinstance(r1, Exc) or isinstance(r2, Exc):
+            return
+        yield 'answered-request-reports-the-group-size', s_and(r1[0] == self.bits, r1[1] is False)
+        if self.second == 'group-without-reply':
+            # the group was handed out; whether a missing follow-up reply voids the measurement is not fixed by the property: either the size or no size
+            yield 'size-of-this-request-or-none', s_or(r2[0] == self.bits, r2[0] == -1)
+        else:
+            yield 'unanswered-request-reports-no-size', r2[0] == -1
+
+
 class PostProcess(Harness):
     """post_process_findings: the OpenSSH-2048 note and the recommendation suppression are added iff size == 2048 and the banner says OpenSSH and sha256 GEX is advertised."""
     prop, ob = PROP, 'O3'
@@ -276,6 +349,9 @@ def tasks(tier):
         T.append(Measure(bits, True))
         if bits % 8:
             T.append(Measure(bits, False))
+    for bits in ((1024, 2048) if q else (512, 1024, 2048, 3072, 4096)):
+        for sec in ('dead', 'disconnect', 'other-type', 'short-group', 'group-without-reply'):
+            T.append(SendInitOutcomes(bits, sec))
     for sw in ('OpenSSH_8.0', 'dropbear_2020.81', 'NotOpenSSH-but-OpenSSH-inside'):
         for adv in (True, False):
             for nd in ((4,) if q else (3, 4, 5)):
@@ -290,6 +366,8 @@ def harness_by_name(name, params):
         return LoopReal(p['style'], p['alg'], p['openssh'])
     if k == 'loop':
         return Loop(p['style'], p['alg'], p['openssh'])
+    if k == 'sendinit':
+        return SendInitOutcomes(p['bits'], p['second'])
     if k == 'measure':
         return Measure(p['bits'], p['lead_zero'])
     if k == 'postprocess':
